@@ -40,7 +40,7 @@ RULES = ['ggt_intrinsic_rank', 'ggt_trace', 'tail_rho', 'sketch_intrinsic_rank',
 
 def generate(seed, idx, tier):
   rng = derive_rng(seed, 'C17', idx)
-  pool = [pick(rng, [4, 5, 6, 8]) for _ in range(rng.randrange(1, 4))]
+  pool = [pick(rng, [4, 5, 6, 8, 8, 10, 12]) for _ in range(rng.randrange(1, 4))]
   n = rng.randrange(1, 7)
   layers = []
   for _ in range(n):
@@ -56,7 +56,7 @@ def generate(seed, idx, tier):
   ck = sorted(set([T] + [rng.randrange(1, T + 1) for _ in range(2)]))
   return {'system': 'realloc', 'class': 'pipeline', 'x64': False,
           'layers': layers, 'scales': scales, 'dead': dead, 'tied': tied,
-          'base_rank': rng.randrange(1, 5), 'T': T, 'ckpts': ck,
+          'base_rank': rng.randrange(1, 7), 'T': T, 'ckpts': ck,
           'rule': pick(rng, RULES), 'avg': rng.random() < 0.5,
           'decay': pick(rng, [0.999, 0.9, 0.5]), 'gseed': rng.randrange(1 << 30),
           'via_files': rng.random() < 0.4, 'seam_seeds': [rng.randrange(1000),
